@@ -129,7 +129,7 @@ func checkC17(tier, replay string) int {
 		Faults []fault `json:"faults"`
 	}
 	var hs []history
-	var replayRepl *[3]string
+	var replayRepl *[4]string
 	if replay != "" {
 		var f struct {
 			Case history `json:"case"`
@@ -147,13 +147,14 @@ func checkC17(tier, replay string) int {
 					Kind      string `json:"kind"`
 					HashFault int    `json:"hash_fault"`
 					ToolFault string `json:"tool_fault"`
+					OldMtime  bool   `json:"old_mtime"`
 				} `json:"case"`
 			}
 			if err := readJSON(replay, &g); err != nil || g.Case.Kind == "" {
 				fmt.Println("replay file holds neither a fault history nor a replacement history", err)
 				return 2
 			}
-			replayRepl = &[3]string{g.Case.Kind, fmt.Sprint(g.Case.HashFault), g.Case.ToolFault}
+			replayRepl = &[4]string{g.Case.Kind, fmt.Sprint(g.Case.HashFault), g.Case.ToolFault, fmt.Sprint(g.Case.OldMtime)}
 		}
 	} else {
 		// byte positions of interest
@@ -329,25 +330,26 @@ func checkC17(tier, replay string) int {
 			Kind      string `json:"kind"`       // other-arch | patched-after-linking
 			HashFault int    `json:"hash_fault"` // 0: none; N: the N-th read(2) of the binary fails with EIO in the final run
 			ToolFault string `json:"tool_fault"` // "": none; the disassembler of the run after the replacement fails: tool-missing | exit1-after-all | exit1-after-half | killed-after-half | exit1-after-nothing
+			OldMtime  bool   `json:"old_mtime"`  // the new binary carries a modification time BEFORE the cache file's (cp -p, tar, reproducible builds)
 		}
 		var rs []repl
 		for _, k := range []string{"other-arch", "patched-after-linking"} {
-			rs = append(rs, repl{k, 0, ""})
+			rs = append(rs, repl{k, 0, "", false}, repl{k, 0, "", true}, repl{k, 0, "exit1-after-all", true}, repl{k, 0, "tool-missing", true})
 			if haveStrace == nil {
 				for n := 1; n <= 3; n++ {
-					rs = append(rs, repl{k, n, ""})
+					rs = append(rs, repl{k, n, "", false})
 				}
 			}
 			// the stale cache of the old binary is there and the disassembler fails for the new one
 			for _, tf := range []string{"tool-missing", "exit1-after-all", "exit1-after-half", "killed-after-half", "exit1-after-nothing"} {
-				rs = append(rs, repl{k, 0, tf})
+				rs = append(rs, repl{k, 0, tf, false})
 			}
 		}
 		if replay != "" {
 			rs = nil
 			if replayRepl != nil {
 				n, _ := strconv.Atoi(replayRepl[1])
-				rs = []repl{{replayRepl[0], n, replayRepl[2]}}
+				rs = []repl{{replayRepl[0], n, replayRepl[2], replayRepl[3] == "true"}}
 			}
 		}
 		// second listing: the small one plus two more syscall sites
@@ -388,6 +390,10 @@ func checkC17(tier, replay string) int {
 					}
 				}
 				place(bin)
+				if r.OldMtime {
+					past := time.Now().Add(-2 * time.Hour)
+					os.Chtimes(bin, past, past)
+				}
 				// what a cold-cache run prints for exactly this new binary (at a fresh path)
 				binN, cacheN := newBin()
 				os.Remove(binN)
@@ -623,7 +629,7 @@ func checkC17(tier, replay string) int {
 	if straceUnavailable > 0 {
 		ctx.Capped("strace not available: write-level crash points skipped")
 	}
-	ctx.Cov["rule"] = "histories run1(fault)[; run2(fault')]; run(normal) on the real profiler binary with a fake `go` tool: disassembler prints the first p bytes of the listing and exits 1 or is killed (quick: every line boundary, every byte of the first two lines and of the execve site, around every 4096-byte flush boundary of a 20 kB listing; thorough: every byte), tool missing from PATH, the profiler itself killed with SIGKILL after the disassembler produced p bytes (every 1024 bytes of a 20 kB listing), SIGKILL or ENOSPC injected by strace at the N-th write(2) of every thread of the profiler and of its children (N=1..18, counted per thread: log lines, every block of the cache file, the emitted profile, the disassembler's writes), a file size limit L (RLIMIT_FSIZE, standing for a full disk; L around the hash line, around every 4096-byte boundary and around the complete size) that hits whoever writes the cache file, and depth-2 fault sequences at line granularity; oracle: the final normal run prints exactly the cold-cache profile or exits non-zero, and a reused cache file equals the complete one; replacement histories: the binary at the same path is replaced by another one (other architecture; same file with bytes of .text flipped, i.e. identical Go build id), with and without an EIO injected at the N-th read while hashing, and with the disassembler failing for the new binary while the old binary's complete cache file is still there (tool missing; exit 1 after all, half or none of the output; killed): a run that exits 0 must print the new binary's cold profile, and so must the normal run after it; overlapping runs: run A on a binary is paused after its disassembler printed pA bytes (6 values), run B on the same binary then completes, fails after q bytes or is killed after q bytes (5 values), A continues, then a normal run - A's own profile and the next run's must be the cold profile or an error; the same with the cache holding an older build's complete disassembly, A failing / being killed after the pause and an ordinary run B started while A is paused (B, too, must print the new build's profile or fail); distinct_nontrivial = histories"
+	ctx.Cov["rule"] = "histories run1(fault)[; run2(fault')]; run(normal) on the real profiler binary with a fake `go` tool: disassembler prints the first p bytes of the listing and exits 1 or is killed (quick: every line boundary, every byte of the first two lines and of the execve site, around every 4096-byte flush boundary of a 20 kB listing; thorough: every byte), tool missing from PATH, the profiler itself killed with SIGKILL after the disassembler produced p bytes (every 1024 bytes of a 20 kB listing), SIGKILL or ENOSPC injected by strace at the N-th write(2) of every thread of the profiler and of its children (N=1..18, counted per thread: log lines, every block of the cache file, the emitted profile, the disassembler's writes), a file size limit L (RLIMIT_FSIZE, standing for a full disk; L around the hash line, around every 4096-byte boundary and around the complete size) that hits whoever writes the cache file, and depth-2 fault sequences at line granularity; oracle: the final normal run prints exactly the cold-cache profile or exits non-zero, and a reused cache file equals the complete one; replacement histories: the binary at the same path is replaced by another one (other architecture; same file with bytes of .text flipped, i.e. identical Go build id; also with a modification time two hours before the cache file's), with and without an EIO injected at the N-th read while hashing, and with the disassembler failing for the new binary while the old binary's complete cache file is still there (tool missing; exit 1 after all, half or none of the output; killed): a run that exits 0 must print the new binary's cold profile, and so must the normal run after it; overlapping runs: run A on a binary is paused after its disassembler printed pA bytes (6 values), run B on the same binary then completes, fails after q bytes or is killed after q bytes (5 values), A continues, then a normal run - A's own profile and the next run's must be the cold profile or an error; the same with the cache holding an older build's complete disassembly, A failing / being killed after the pause and an ordinary run B started while A is paused (B, too, must print the new build's profile or fail); distinct_nontrivial = histories"
 	ctx.Assumptions = []string{"the fake go tool stands for any disassembler failure; the cache path is <home>/.seccomp-profiler/<base>-<sha256(abs)[:10]> as the profiler logs it", "strace injection realises crashes at write granularity"}
 	if replay != "" {
 		return finishReplay(ctx)
